@@ -297,11 +297,13 @@ func (c *Client) Listen() error {
 				break
 			}
 
+			// A datagram that cannot be handled (undecodable, a STUN request,
+			// non-STUN data from the server address, an unknown channel) must not
+			// end the read loop: anybody can send one, and the client would stop
+			// receiving responses and relayed data for good.
 			_, err = c.HandleInbound(buf[:n], from)
 			if err != nil {
-				c.log.Debugf("Failed to handle inbound message: %s. Exiting loop", err)
-
-				break
+				c.log.Debugf("Failed to handle inbound message: %s", err)
 			}
 		}
 
